@@ -171,6 +171,8 @@ def shape_engine(prop, tier, seed, keep=False):
     joindiff = vlib.join_differs()
     if joindiff and 'clang-dev' not in flavours: flavours.append('clang-dev')
     shapeset = shp.shape_set(seed, T['n_random'])
+    if prop == 'C16':
+        for sj in shapeset[1::2]: shp.add_masks(sj, seed)      # every other shape leaves some methods un-overridden
     if prop == 'C14':
         # payload types: int, 24-byte POD with odd tail, over-aligned 64-byte struct, 1-byte enum
         for i, sj in enumerate(shapeset): sj['cfg']['payload'] = ['int', 'pod24', 'big64', 'tiny'][i % 4]
